@@ -52,31 +52,53 @@ Theorem c18_resent_partial : forall sc decode now s seqnum m,
 Proof. exact resent_partial. Qed.
 Print Assumptions c18_resent_partial.
 
-(* 3. F22 in general: whenever the first stored number k in the range is above Begin (scenario #3; #2 is
-      the same code path for later gaps, PlanProofs.loop_gaps) the answer STARTS with a gap fill that the
-      oracle's own parser reads as MsgSeqNum = next_send, NewSeqNo = k -- not MsgSeqNum = Begin. *)
-Theorem c18_gapfill_seq_general : forall sc decode now s seqnum m k raw rest,
+(* 3. GAP FILLS INSIDE THE REPLAY ARE EXACT (scenarios #2/#3, since /repo 930506b), for all stores and ranges:
+      each one is read by the oracle's parser as MsgSeqNum = a, NewSeqNo = k where a is the first number of
+      a gap (Begin, or the number after a stored record), k is the number of the next stored record in the
+      range, and nothing is stored in [a, k). *)
+Theorem c18_gapfill_exact : forall sc decode now s seqnum m,
   schema_ok sc = true -> nosoh (s_snd s) = true -> nosoh (s_tgt s) = true ->
   ready sc decode now s seqnum m -> ready_store decode s ->
   range_bad (req_begin m) (req_end m) = false ->
-  after (req_begin m - 1) (finish_of (p_store (s_per s)) (req_end m)) (p_store (s_per s)) = (k, raw) :: rest ->
-  req_begin m < k ->
+  exists s' loop_items final,
+    handle_resend_request sc decode now seqnum m s =
+      (inl true, s', out sc now decode s (loop_items ++ [final])) /\
+    forall a k, In (PGap a k) loop_items ->
+      parse_out (wire sc decode now s (PGap a k)) = IGap a k /\
+      req_begin m <= a /\ a < k /\
+      (exists raw, In (k, raw) (p_store (s_per s)) /\ k <= finish_of (p_store (s_per s)) (req_end m)) /\
+      (forall k' raw', In (k', raw') (p_store (s_per s)) -> ~ (a <= k' < k)) /\
+      (a = req_begin m \/ exists raw', In (a - 1, raw') (p_store (s_per s))).
+Proof. exact gapfill_exact. Qed.
+Print Assumptions c18_gapfill_exact.
+
+(* 4. F22 BEFORE the repair, on Session.retrans_record_orig (the callback as it was): for every state the gap
+      fill in front of a record k > Begin carries MsgSeqNum = next_send instead of Begin; witness in the
+      state of c18_nonvacuous (store {3}, next_send 4, request [1,0]): `34=4 ... 36=3`.  After the repair
+      the same history is answered `34=1 ... 36=3` and the oracle accepts it. *)
+Theorem c18_gapfill_seq_orig_refuted : forall sc decode now s b k raw,
+  schema_ok sc = true -> nosoh (s_snd s) = true -> nosoh (s_tgt s) = true ->
+  s_closed s = false -> s_batch s = [] -> pr_asa (s_par s) = false -> p_attached (s_per s) = true ->
+  resendable decode (k, raw) = true -> b < k ->
   exists s' w evs,
-    handle_resend_request sc decode now seqnum m s = (inl true, s', EOut w :: evs) /\
+    retrans_record_orig sc decode now b 0 k raw s = (inl true, s', EOut w :: evs) /\
     parse_out w = IGap (s_next_send s) k.
-Proof. exact gapfill_seq_general. Qed.
-Print Assumptions c18_gapfill_seq_general.
+Proof. exact gapfill_seq_orig_refuted. Qed.
+Print Assumptions c18_gapfill_seq_orig_refuted.
 
-(* 4. F22, witness on the complete model (history -> trace): store {3}, next_send 4, request [1,0]; the gap
-      1..2 is announced as `34=4 ... 36=3`, the oracle rejects the trace. *)
-Theorem c18_gapfill_seq_refuted :
-  c18_ok_line line_f22 (run_line schema0 line_f22) = false /\
+Theorem c18_gapfill_seq_orig_witness : orig_first_item = IGap 4 3.
+Proof. exact gapfill_seq_orig_witness. Qed.
+Print Assumptions c18_gapfill_seq_orig_witness.
+
+Theorem c18_gapfill_seq_repaired :
+  c18_ok_line line_f22 (run_line schema0 line_f22) = true /\
+  c18_judged_line line_f22 (run_line schema0 line_f22) = 1 /\
   map brief (answer_items schema0 line_f22) =
-    [IGap 4 3; IMsg [(dec T_MsgType, [68]); (dec T_MsgSeqNum, dec 3)]; IGap 4 5].
-Proof. exact gapfill_seq_refuted. Qed.
-Print Assumptions c18_gapfill_seq_refuted.
+    [IGap 1 3; IMsg [(dec T_MsgType, [68]); (dec T_MsgSeqNum, dec 3)]; IGap 4 5].
+Proof. exact gapfill_seq_repaired. Qed.
+Print Assumptions c18_gapfill_seq_repaired.
 
-(* 5. Second defect, witness: store {2,4}, next_send 5, request [2,3]: the final gap fill is `34=3 36=5`,
+(* 5. The remaining defect, witness: store {2,4}, next_send 5, request [2,3]: the final gap fill is `34=3 36=5`,
       declaring the stored message 4 skipped; the oracle rejects the trace. *)
 Theorem c18_overreach_refuted :
   c18_ok_line line_overreach (run_line schema0 line_overreach) = false /\
@@ -125,12 +147,12 @@ Theorem c18_reject_invalid : forall sc decode now s seqnum m,
 Proof. exact reject_invalid. Qed.
 Print Assumptions c18_reject_invalid.
 
-(* 9. END TO END: when the two defect patterns are excluded -- no number without a stored message before a
-      stored one inside the range (no_gap_before_stored), and End = 0 or nothing stored beyond End
-      (nothing_stored_beyond) -- the bytes the model emits satisfy the ORACLE Spec_C18.answer_ok, for every
-      store and range.  exact_ok = the decoder neither drops nor reorders tokens of the stored strings (the
-      codec's own properties C03/C04); keys_below = what is stored was sent.  The negations of
-      no_gap_before_stored / nothing_stored_beyond are the classifiers of the two known findings. *)
+(* 9. END TO END, for every store and range: provided End = 0 or nothing is stored beyond End
+      (nothing_stored_beyond: the final gap fill still announces next_send, the one remaining defect) the bytes
+      the model emits satisfy the ORACLE Spec_C18.answer_ok -- holes in front of and between stored messages
+      included.  exact_ok = the decoder neither drops nor reorders tokens of the stored strings (the codec's own
+      properties C03/C04); keys_below = what is stored was sent.  The negation of nothing_stored_beyond is the
+      classifier of the known finding. *)
 Theorem c18_answer_ok_partial : forall sc decode now, schema_ok sc = true -> forall s seqnum m,
   nosoh (s_snd s) = true -> nosoh (s_tgt s) = true ->
   (exists r, enforce sc now seqnum m s = (inl r, s, [])) ->
@@ -141,7 +163,6 @@ Theorem c18_answer_ok_partial : forall sc decode now, schema_ok sc = true -> for
   forallb (exact_ok sc decode) (p_store (s_per s)) = true ->
   keys_below (s_next_send s) (p_store (s_per s)) = true ->
   range_bad (req_begin m) (req_end m) = false ->
-  no_gap_before_stored (p_store (s_per s)) (req_begin m) (req_end m) = true ->
   nothing_stored_beyond (p_store (s_per s)) (s_next_send s) (req_end m) = true ->
   exists s' evs,
     handle_resend_request sc decode now seqnum m s = (inl true, s', evs) /\
@@ -169,7 +190,7 @@ Proof. exact good_accepted. Qed.
 Print Assumptions c18_oracle_accepts.
 
 (* 12. The hypotheses of 1-3, 7 hold in a reachable state with a hole in front of a stored message
-       (store {3}, next_send 4, request [1,0]; the plan has the gap fills (4,3) and (4,5) and resends 3) ... *)
+       (store {3}, next_send 4, request [1,0]; the plan has the gap fills (1,3) and (4,5) and resends 3) ... *)
 Theorem c18_nonvacuous :
   schema_ok schema0 = true /\ nosoh (s_snd s_f22) = true /\ nosoh (s_tgt s_f22) = true /\
   ready schema0 (dec_fn schema0) (w_now w_f22) s_f22 2 m_f22 /\
@@ -177,7 +198,7 @@ Theorem c18_nonvacuous :
   forallb (record_ok (dec_fn schema0)) (p_store (s_per s_f22)) = true /\
   range_bad (req_begin m_f22) (req_end m_f22) = false /\
   map fst (p_store (s_per s_f22)) = [3] /\ s_next_send s_f22 = 4 /\ req_begin m_f22 = 1 /\ req_end m_f22 = 0 /\
-  gaps (fst (plan (p_store (s_per s_f22)) (s_next_send s_f22) (req_begin m_f22) (req_end m_f22))) = [(4, 3); (4, 5)] /\
+  gaps (fst (plan (p_store (s_per s_f22)) (s_next_send s_f22) (req_begin m_f22) (req_end m_f22))) = [(1, 3); (4, 5)] /\
   map fst (resent (fst (plan (p_store (s_per s_f22)) (s_next_send s_f22) (req_begin m_f22) (req_end m_f22)))) = [3].
 Proof. exact nonvacuous. Qed.
 Print Assumptions c18_nonvacuous.
@@ -193,7 +214,6 @@ Theorem c18_nonvacuous_oracle :
   forallb (exact_ok schema0 (dec_fn schema0)) (p_store (s_per s_good)) = true /\
   keys_below (s_next_send s_good) (p_store (s_per s_good)) = true /\
   range_bad (req_begin m_good) (req_end m_good) = false /\
-  no_gap_before_stored (p_store (s_per s_good)) (req_begin m_good) (req_end m_good) = true /\
   nothing_stored_beyond (p_store (s_per s_good)) (s_next_send s_good) (req_end m_good) = true /\
   map fst (p_store (s_per s_good)) = [2; 3] /\ s_next_send s_good = 4 /\ req_begin m_good = 2 /\ req_end m_good = 0.
 Proof. exact nonvacuous_oracle. Qed.
